@@ -30,7 +30,7 @@ EXPLANATION = ('Lean theorems about singleton lookup-or-construct as an atomic s
 # ------------------------------------------------------------------ generator
 def gen_case(rng, nthreads=None):
   nt = nthreads or rng.choice([2, 2, 3, 4])
-  keys = ['k1', 'k2']
+  keys = ['k1', 'k2', 'kn']   # the constructor of 'kn' returns None
   threads = []
   for _ in range(nt):
     prog = []
@@ -134,11 +134,27 @@ class SDict(dict):
 
   def setdefault(self, k, d=None):
     self.sched.checkpoint()
+    if type(d) is dict:   # the per-configurable record is shared too: instrument it as well
+      d = SDict(d)
     return dict.setdefault(self, k, d)
 
-  def items(self):
+  def update(self, *a, **k):
     self.sched.checkpoint()
-    return dict.items(self)
+    dict.update(self, *a, **k)
+
+  def items(self):
+    # a thread can be pre-empted between two steps of an iteration: if another thread changes the dict
+    # meanwhile, CPython raises "dictionary changed size during iteration" exactly as it would for real
+    self.sched.checkpoint()
+    for kv in dict.items(self):
+      yield kv
+      self.sched.checkpoint()
+
+  def __iter__(self):
+    self.sched.checkpoint()
+    for k in dict.__iter__(self):
+      yield k
+      self.sched.checkpoint()
 
 
 class SLock:
@@ -198,7 +214,7 @@ def do_action(gin, fns, act, counts, log):
 
     def ctor():
       counts[key] = counts.get(key, 0) + 1
-      return object()
+      return None if key == 'kn' else object()
     obj = gin.config.singleton_value(key, ctor)
     log.append(['single', key, id(obj)])
   elif act[0] == 'call':
